@@ -27,6 +27,7 @@ import (
 //	o                 OPT pseudo record
 type rrItem struct {
 	kind byte
+	inv  bool // RRSIG written `G…`: an inverted window (Inception numerically after Expiration)
 	ttl  uint32
 	a    int64 // SOA minimum | RRSIG D
 	b    int64 // proof: tue in ns
@@ -39,6 +40,9 @@ func parseItems(s string) []rrItem {
 	var out []rrItem
 	for _, f := range strings.Split(s, ",") {
 		it := rrItem{kind: f[0]}
+		if it.kind == 'G' {
+			it.kind, it.inv = 'g', true
+		}
 		if it.kind != 'o' {
 			p := strings.Split(f[1:], "/")
 			it.ttl = uint32(vlib.AtoU64(p[0]))
@@ -58,6 +62,18 @@ func mkSig(owner string, ttl uint32, expiration uint32) *dns.RRSIG {
 	return &dns.RRSIG{Hdr: dns.RR_Header{Name: owner, Rrtype: dns.TypeRRSIG, Class: dns.ClassINET, Ttl: ttl},
 		TypeCovered: dns.TypeA, Algorithm: 13, Labels: 3, OrigTtl: ttl, Expiration: expiration,
 		Inception: expiration - 86400, KeyTag: 7, SignerName: "z.test.", Signature: "ZmFrZXNpZ25hdHVyZQ=="}
+}
+
+// invert gives a signature an inverted validity window: Inception numerically greater than
+// Expiration (a signer whose clock stepped back, a hostile authority).  The expiration stays what it is.
+func invert(sg *dns.RRSIG, inv bool) *dns.RRSIG {
+	if inv {
+		sg.Inception = sg.Expiration + 1000
+		if sg.Inception < sg.Expiration { // wrapped
+			sg.Inception = 0xffffffff
+		}
+	}
+	return sg
 }
 
 func mkSOA(owner string, ttl, minimum uint32) *dns.SOA {
@@ -93,7 +109,7 @@ func buildSection(base int64, owner string, items []rrItem) []dns.RR {
 		case 's':
 			out = append(out, mkSOA(owner, it.ttl, uint32(it.a)))
 		case 'g':
-			out = append(out, mkSig(owner, it.ttl, sigExp(base, it.a)))
+			out = append(out, invert(mkSig(owner, it.ttl, sigExp(base, it.a)), it.inv))
 		case 'o':
 			o := &dns.OPT{Hdr: dns.RR_Header{Name: ".", Rrtype: dns.TypeOPT}}
 			o.SetUDPSize(1232)
@@ -213,7 +229,7 @@ func execTTL(f []string) vlib.Res {
 		ttl := uint32(vlib.AtoU64(f[2]))
 		tue := time.Duration(vlib.AtoI64(f[3]))
 		const e = 2000000000
-		got := dnsutil.VerifC04GetRRSIGTTL(mkSig("x.", ttl, e), time.Unix(e, 0).Add(-tue))
+		got := dnsutil.VerifC04GetRRSIGTTL(invert(mkSig("x.", ttl, e), len(f) > 4 && f[4] == "inv"), time.Unix(e, 0).Add(-tue))
 		or := "ok"
 		if tue > 0 && got > tue {
 			or = fmt.Sprintf("FAIL sig=ttl/sig/outlives-signature got=%d tue=%d", got, tue)
@@ -298,7 +314,7 @@ func execTTL(f []string) vlib.Res {
 				// expiration is a whole second: tue = exp - now is given in ns and
 				// chosen by the generator so that now+tue is whole
 				exp := now.Add(time.Duration(it.b))
-				sg := mkSig("z.test.", it.ttl, uint32(exp.Unix()))
+				sg := invert(mkSig("z.test.", it.ttl, uint32(exp.Unix())), it.inv)
 				sg.OrigTtl = uint32(it.a)
 				recs = append(recs, sg)
 			}
